@@ -122,10 +122,17 @@ Definition multi (a : attr) : bool := match a with AName | AGroup => true | _ =>
 Definition get_multi (a : attr) (o : obj) : list Z := match a with AName => o_names o | _ => o_groups o end.
 Definition put_multi (a : attr) (o : obj) (l : list Z) : obj := match a with AName => set_names o l | _ => set_groups o l end.
 
+(* KMIP 2.0 carries attributes without an Attribute Index (payloads convert the template into an
+   Attributes structure); _process_template_attribute l.582 then refuses the second instance of a
+   multi-valued attribute: "Attribute index missing from multivalued attribute." *)
+Definition no_index_form (h : header) (names groups : list Z) : bool :=
+  ver_ge (h_ver h) (2,0) && ((1 <? zlen names) || (1 <? zlen groups)).
+
 Definition h_create (h : header) (w : store) (sym unsup has_alg has_len has_mask len_ok : bool)
            (names groups : list Z) (sens : option bool) : hres :=
   if negb sym then HFail R_INVALID_FIELD w else
   if unsup || (match sens with Some _ => negb (ver_ge (h_ver h) (1,4)) | None => false end) then HFail R_INVALID_FIELD w else
+  if no_index_form h names groups then HFail R_INVALID_FIELD w else
   if negb has_alg then HFail R_INVALID_FIELD w else
   if negb has_len then HFail R_INVALID_FIELD w else
   if negb has_mask then HFail R_INVALID_FIELD w else
@@ -139,6 +146,7 @@ Definition h_create (h : header) (w : store) (sym unsup has_alg has_len has_mask
 Definition h_register (h : header) (w : store) (kind : Z) (unsup inapplicable : bool) (names groups : list Z) : hres :=
   if negb (kind_registrable kind) then HFail R_INVALID_FIELD w else
   if unsup then HFail R_INVALID_FIELD w else
+  if no_index_form h names groups then HFail R_INVALID_FIELD w else
   if inapplicable then HFail R_INVALID_FIELD w else
   if has_dup names then HFail R_INVALID_FIELD w else
   let o := {| o_uid := next w; o_owner := h_user h; o_kind := kind;
